@@ -69,8 +69,14 @@ def add_order_siblings(rng, tree, n=2):
         sib = d + rng.choice(BELOW_SLASH) + rng.choice(["", "x", "py", "extra"])
         if sib in host[1]:
             continue
-        host[1][sib] = ("f", b"s%d" % rng.randrange(9)) if rng.random() < 0.6 else \
-            ("d", {"data.bin": ("f", b"d%d" % rng.randrange(9))})
+        if rng.random() < 0.6:
+            host[1][sib] = ("f", b"s%d" % rng.randrange(9))
+        else:
+            inner_sib = {"data.bin": ("f", b"d%d" % rng.randrange(9))}
+            if rng.random() < 0.5 and not contains_link(("d", host[1][d][1])):
+                # a link to the directory whose name the sibling's name extends ("lib-x/ln -> ../lib"): not a loop
+                inner_sib["ln"] = ("l", "../" + d)
+            host[1][sib] = ("d", inner_sib)
     return tree
 
 
